@@ -1,5 +1,6 @@
 use crate::traits::codec::{MessageDecoder, MessageEncoder};
 use anyhow::Result;
+use bincode::Options;
 use bytes::{Buf, Bytes, BytesMut};
 use serde::{de::DeserializeOwned, Serialize};
 use std::marker::PhantomData;
@@ -47,7 +48,15 @@ impl<Item: Serialize> MessageEncoder<Item> for BincodeCodec<Item> {
 /// Returns [Err] if the [BytesMut](bytes::BytesMut) payload fails to deserialize into `Item`.
 impl<Item: DeserializeOwned> MessageDecoder<Item> for BincodeCodec<Item> {
     fn decode(&self, buffer: &mut BytesMut) -> Result<Item> {
-        Ok(bincode::deserialize_from(buffer.reader())?)
+        // Same encoding as `bincode::deserialize_from`, but a length declared in the payload may
+        // never exceed the bytes received, so it cannot be used to request arbitrary allocations.
+        let limit = buffer.len() as u64;
+
+        Ok(bincode::options()
+            .with_fixint_encoding()
+            .allow_trailing_bytes()
+            .with_limit(limit)
+            .deserialize_from(buffer.reader())?)
     }
 }
 
